@@ -2073,6 +2073,10 @@ Vsetname(int32       vkey, /* IN: vgroup key */
 
     name_len = strlen(vgname); /* shortcut of length of the given name */
 
+    /* the length of the name is stored as a 16-bit unsigned value */
+    if (name_len > UINT16_MAX)
+        HGOTO_ERROR(DFE_ARGS, FAIL);
+
     /* if name exists, release it */
     free(vg->vgname);
 
@@ -2140,6 +2144,10 @@ Vsetclass(int32       vkey, /* IN: vgroup key */
      */
 
     classname_len = strlen(vgclass); /* length of the given class name */
+
+    /* the length of the class name is stored as a 16-bit unsigned value */
+    if (classname_len > UINT16_MAX)
+        HGOTO_ERROR(DFE_ARGS, FAIL);
 
     /* if name exists, release it */
     free(vg->vgclass);
